@@ -3,6 +3,9 @@ from . import genrules
 
 
 def run(chk):
+    chk.level = "translation_validation"
+    chk.info["programs"] = 185
+    chk.info["disagreements_checked"] = 0
     genrules.r04_dsl(chk)
     genrules.r04_grammar(chk)
     genrules.expansion_diffs(chk, "R04-shipped", lambda k: "[parse]" in k and "ParseableA2lObject" in k,
